@@ -65,6 +65,53 @@ theorem copyChars_no_input {d : Dec} {c : List Byte} {r : CC} (h : copyChars d c
         injection h with h; subst h
         show inputsOf (r1.cbs ++ r2.cbs) = []
         rw [inputsOf_append, ccByte_no_input h1, ih h2]; rfl
+theorem copyCharsO_no_input {o : Oracle} {d : Dec} {n : Nat} {c : List Byte} {r : CC} {n' : Nat} {dead : Bool}
+    (h : copyCharsO o d n c = .ok (r, n', dead)) : inputsOf r.cbs = [] := by
+  induction c generalizing d n r n' dead with
+  | nil =>
+    simp only [copyCharsO] at h
+    injection h with h; injection h with h _; subst h; rfl
+  | cons b rest ih =>
+    simp only [copyCharsO] at h
+    cases h1 : ccByte d b with
+    | error e => rw [h1] at h; cases h
+    | ok r1 =>
+      rw [h1] at h; dsimp only at h
+      have hb := ccByte_no_input h1
+      split at h
+      · cases h2 : copyCharsO o r1.d n rest with
+        | error e => rw [h2] at h; cases h
+        | ok res =>
+          obtain ⟨r2, n2, d2⟩ := res
+          rw [h2] at h
+          injection h with h; injection h with h _; subst h
+          exact ih (r := r2) h2
+      · cases ho : o n with
+        | dest =>
+          rw [ho] at h
+          injection h with h; injection h with h _; subst h
+          exact hb
+        | ok =>
+          rw [ho] at h; dsimp only at h
+          cases h2 : copyCharsO o r1.d (n + 1) rest with
+          | error e => rw [h2] at h; cases h
+          | ok res =>
+            obtain ⟨r2, n2, d2⟩ := res
+            rw [h2] at h
+            injection h with h; injection h with h _; subst h
+            show inputsOf (r1.cbs ++ _ ++ r2.cbs) = []
+            rw [inputsOf_append, inputsOf_append, hb, ih (r := r2) h2]; rfl
+        | err =>
+          rw [ho] at h; dsimp only at h
+          cases h2 : copyCharsO o r1.d (n + 1) rest with
+          | error e => rw [h2] at h; cases h
+          | ok res =>
+            obtain ⟨r2, n2, d2⟩ := res
+            rw [h2] at h
+            injection h with h; injection h with h _; subst h
+            show inputsOf (r1.cbs ++ _ ++ r2.cbs) = []
+            rw [inputsOf_append, inputsOf_append, hb, ih (r := r2) h2]; rfl
+
 /-- the specification's line splitter on tokens is `cmdsOf` on the rendered text -/
 theorem linesTok_eq_cmdsOf (cur : List Byte) (ts : List Tok) : linesTok cur ts = cmdsOf cur (renderToks ts) := by
   induction ts generalizing cur with
@@ -161,9 +208,9 @@ theorem computeSpace_keep {s : S} (h : Inv s) (hp : s.port = .telnet) (hk : keep
 
 /-- **one telnet read below the discard threshold**: the pending text grows by exactly what copy_chars produces for
     the bytes taken from the socket; nothing else of the pending text changes -/
-theorem telnet_read_exact {s : S} (h : Inv s) (hp : s.port = .telnet) (hns : s.dec.fl.single = false)
-    (hk : keepsPending (s.tend - s.tstart) = true) :
-    ∃ s' evs, getUserData s = .ok (s', evs) ∧ Inv s' ∧ s'.port = .telnet ∧ inputsOf evs = [] ∧
+theorem telnet_read_exact {o : Oracle} (hnd : NoDest o) {s : S} (h : Inv s) (hp : s.port = .telnet)
+    (hns : s.dec.fl.single = false) (hk : keepsPending (s.tend - s.tstart) = true) :
+    ∃ s' evs, getUserData o s = .ok (s', evs) ∧ Inv s' ∧ s'.port = .telnet ∧ inputsOf evs = [] ∧
       ((s.sock = [] ∧ pend s' = pend s ∧ s'.dec = s.dec ∧ s'.sock = []) ∨
        (∃ n r, 0 < n ∧ s.sock ≠ [] ∧ copyChars s.dec (s.sock.take n) = .ok r ∧ ChunkOK s.dec (s.sock.take n) r ∧
           pend s' = pend s ++ r.out ∧ s'.sock = s.sock.drop n ∧
@@ -194,9 +241,16 @@ theorem telnet_read_exact {s : S} (h : Inv s) (hp : s.port = .telnet) (hns : s.d
     have hse1 := ok.inv.se
     rw [hp1]
     dsimp only
-    obtain ⟨r, hr, ck⟩ := copyChars_ok ok.inv.dec (s1.sock.take sp)
-    rw [hr]
+    obtain ⟨r', n', dead, hr', hnd'⟩ := copyCharsO_ok o ok.inv.dec s1.cbCount (s1.sock.take sp)
+    have hdead : dead = false := copyCharsO_nodest hnd _ _ _ _ _ _ hr'
+    subst hdead
+    obtain ⟨r, hr, ed, eo, _⟩ := hnd' rfl
+    obtain ⟨r0, hr0, ck⟩ := copyChars_ok ok.inv.dec (s1.sock.take sp)
+    rw [hr] at hr0; injection hr0 with hr0; subst hr0
+    rw [hr']
     dsimp only
+    simp only [Bool.false_eq_true, if_false]
+    rw [ed, eo]
     have hroomT := ok.roomT hp
     have hout := ck.len
     have hw1 : s1.tend + r.out.length ≤ s1.text.length := by omega
@@ -217,7 +271,7 @@ theorem telnet_read_exact {s : S} (h : Inv s) (hp : s.port = .telnet) (hns : s.d
       rfl
     rw [setCmdFlag_exact (by dsimp only; rw [hl3, hl2]; omega) (by dsimp only; omega) (by dsimp only; exact hsingle)]
     refine ⟨_, _, rfl, ⟨?_, ?_, ?_, decInv_fl ck.inv _⟩, rfl,
-      (by rw [inputsOf_append, inputsOf_append, copyChars_no_input hr]; cases r.tx.isEmpty <;> rfl),
+      (by rw [inputsOf_append, inputsOf_append, copyCharsO_no_input hr']; cases r'.tx.isEmpty <;> rfl),
       Or.inr ⟨sp, r, ok.pos, ?_, ?_, ?_, ?_, ?_, ?_⟩⟩
     · dsimp only; rw [hl3, hl2]; exact hl1
     · dsimp only; omega
